@@ -1218,6 +1218,8 @@ package mq
 //@     invariant old(b.err) != nil ==> b.err != nil                                         #C09
 //@     -- (d) an identifier that is neither in this call site's table nor User Property / Subscription Identifier is refused
 //@     latch !(haskey(fields, id) || id == 38 || id == 11) ==> b.err != nil                 #C09
+//@     -- ... and the identifier is the one byte at the cursor where this iteration started
+//@     latch b.err == nil ==> old(b.i) < len(b.data) && int(id) == int(old(b.data[b.i]))    #C09
 
 //@ func (*UserProp).UnmarshalBinary
 //@   let l1 = int(specU16(data[0], data[1]))
